@@ -124,6 +124,13 @@ def step (s : DS) (ws : List String) : DS × String :=
           | none => "ext0=none"
         (s, p ++ " " ++ x)
       | _, _, _ => (s, "bad-op")
+    -- the hash was offered (an unproxied torrent with it was listed when the handshake began);
+    -- after the handshake tor.Server finds this torrent: the NewPeer call site's gate decides
+    | "incoming-swap" =>
+      let e : Env := { conf := s.conf, fx := s.fx }
+      let acc := gate Gen.privacyGates e "tor.Server" "t.NewPeer"
+        "t.proxy, conn, netip.AddrPortFrom(ipp, 0), true, result, init"
+      (s, s!"offered=1 accepted={b01 acc}")
     | "incoming" =>
       let (_, os) := run .incoming
       (s, s!"offered={b01 (os.any (fun o => o.2 == .offer))} accepted={b01 (os.any (fun o => o.2 == .accept))}")
